@@ -28,7 +28,7 @@ type Compiler struct {
 
 	Logger *logger.Logger
 
-	dynamicCache   map[string]string
+	dynamicCache   map[dynamicVarKey]string
 	muDynamicCache sync.Mutex
 }
 
@@ -95,6 +95,18 @@ func (c *Compiler) getVariables(t *ast.Task, call *Call, evaluateShVars bool) (*
 	}
 	rangeFunc := getRangeFunc(c.Dir)
 
+	for k, v := range c.TaskfileEnv.All() {
+		if err := rangeFunc(k, v); err != nil {
+			return nil, err
+		}
+	}
+	for k, v := range c.TaskfileVars.All() {
+		if err := rangeFunc(k, v); err != nil {
+			return nil, err
+		}
+	}
+	// The dir of the task may refer to the variables of the Taskfile, so it is
+	// resolved once those are known
 	var taskRangeFunc func(k string, v ast.Var) error
 	if t != nil {
 		// NOTE(@andreynering): We're manually joining these paths here because
@@ -108,16 +120,6 @@ func (c *Compiler) getVariables(t *ast.Task, call *Call, evaluateShVars bool) (*
 		taskRangeFunc = getRangeFunc(dir)
 	}
 
-	for k, v := range c.TaskfileEnv.All() {
-		if err := rangeFunc(k, v); err != nil {
-			return nil, err
-		}
-	}
-	for k, v := range c.TaskfileVars.All() {
-		if err := rangeFunc(k, v); err != nil {
-			return nil, err
-		}
-	}
 	if t != nil {
 		for k, v := range t.IncludeVars.All() {
 			if err := rangeFunc(k, v); err != nil {
@@ -149,6 +151,13 @@ func (c *Compiler) getVariables(t *ast.Task, call *Call, evaluateShVars bool) (*
 	return result, nil
 }
 
+// dynamicVarKey identifies one evaluation of a dynamic variable: the command
+// and the directory it runs in.
+type dynamicVarKey struct {
+	dir string
+	sh  string
+}
+
 func (c *Compiler) HandleDynamicVar(v ast.Var, dir string, e []string) (string, error) {
 	c.muDynamicCache.Lock()
 	defer c.muDynamicCache.Unlock()
@@ -158,16 +167,19 @@ func (c *Compiler) HandleDynamicVar(v ast.Var, dir string, e []string) (string, 
 		return "", nil
 	}
 
-	if c.dynamicCache == nil {
-		c.dynamicCache = make(map[string]string, 30)
-	}
-	if result, ok := c.dynamicCache[*v.Sh]; ok {
-		return result, nil
-	}
-
 	// NOTE(@andreynering): If a var have a specific dir, use this instead
 	if v.Dir != "" {
 		dir = v.Dir
+	}
+
+	// The output of a command depends on the directory it runs in: tasks with
+	// different dirs must not be handed each other's result
+	key := dynamicVarKey{dir: dir, sh: *v.Sh}
+	if c.dynamicCache == nil {
+		c.dynamicCache = make(map[dynamicVarKey]string, 30)
+	}
+	if result, ok := c.dynamicCache[key]; ok {
+		return result, nil
 	}
 
 	var stdout bytes.Buffer
@@ -187,7 +199,7 @@ func (c *Compiler) HandleDynamicVar(v ast.Var, dir string, e []string) (string, 
 	result := strings.TrimSuffix(stdout.String(), "\r\n")
 	result = strings.TrimSuffix(result, "\n")
 
-	c.dynamicCache[*v.Sh] = result
+	c.dynamicCache[key] = result
 	c.Logger.VerboseErrf(logger.Magenta, "task: dynamic variable: %q result: %q\n", *v.Sh, result)
 
 	return result, nil
